@@ -23,7 +23,7 @@ type genInput struct {
 	//   notification     - well-formed notification
 	//   response         - a response to a request the server never sent
 	//   lenient          - irregular, but a server may either serve or refuse it
-	Class string
+	Class     string
 	IsRequest bool   // object with string/number id and string method: an answer is owed
 	ID        string // raw id
 }
